@@ -134,8 +134,9 @@ class Ctx:
 
         def one(k_ch):
             k, ch = k_ch
-            path = os.path.join(self.scratch, "cases_%s_%d_%d.json" % (module, k, int(time.time() * 1e6) % 10**9))
-            with open(path, "w") as f:
+            import tempfile
+            fd, path = tempfile.mkstemp(prefix="cases_%s_%d_" % (module, k), suffix=".json", dir=self.scratch)
+            with os.fdopen(fd, "w") as f:
                 json.dump(ch, f)
             e = {"CASES_FILE": path}
             if env:
